@@ -15,9 +15,10 @@ from labella.force import Force
 from labella.node import Node
 
 # the same table as DeltaOf / Opt0 in spec/Engine.tla (mx = 0 stands for maxPos None)
-OPT0 = {"mx": 0, "ns": 3, "alg": "overlap", "sw": 1}
-DELTAS = {"d1": {"mx": 8}, "d2": {"mx": 0}, "d3": {"ns": 1}, "d4": {"alg": "simple"}, "d5": {"mx": 14, "sw": 0}}
-KEYMAP = {"mx": "maxPos", "ns": "nodeSpacing", "alg": "algorithm", "sw": "stubWidth"}
+OPT0 = {"mx": 0, "mn": 0, "ns": 3, "alg": "overlap", "sw": 1, "dn": 85}
+DELTAS = {"d1": {"mx": 8}, "d2": {"mx": 0}, "d3": {"ns": 1}, "d4": {"alg": "simple"}, "d5": {"mx": 14, "sw": 0},
+          "d6": {"mn": -1}, "d7": {"mn": 2, "mx": 12}, "d8": {"dn": 50, "mx": 10}}
+KEYMAP = {"mx": "maxPos", "mn": "minPos", "ns": "nodeSpacing", "alg": "algorithm", "sw": "stubWidth", "dn": "density"}
 
 DEFAULT_SETS = {
     "A": [[1, 2], [1.5, 2], [2, 1], [2, 1], [4.5, 3.5]],
@@ -30,6 +31,10 @@ def to_force_opts(delta, scale):
     for k, v in delta.items():
         if k == "mx":
             out["maxPos"] = None if v == 0 else v * scale
+        elif k == "mn":
+            out["minPos"] = None if v == -1 else v * scale
+        elif k == "dn":
+            out["density"] = v / 100.0
         else:
             out[KEYMAP[k]] = v
     return out
@@ -92,7 +97,7 @@ def play(history, sets, perms, scale):
             except Exception as ex:  # totality is C11's matter; here it is reported, not hidden
                 err = type(ex).__name__
             e.update({"res": res, "ref": ref, "err": err,
-                      "cfg": {"base": base, "mx": acc["mx"], "ns": acc["ns"], "alg": acc["alg"], "sw": acc["sw"]}})
+                      "cfg": {"base": base, "mx": acc["mx"], "mn": acc["mn"], "ns": acc["ns"], "alg": acc["alg"], "sw": acc["sw"], "dn": acc["dn"]}})
         ev.append(e)
     return {"ev": ev, "sets": sets, "scale": scale}
 
@@ -122,7 +127,7 @@ def random_case(rng):
         p = list(range(len(sets[name])))
         rng.shuffle(p)
         perms["P" + name] = p
-    alphabet = ["N:A", "N:B", "N:PA", "N:PB", "O:d1", "O:d2", "O:d3", "O:d4", "O:d5", "C", "C", "C", "F:A", "F:B"]
+    alphabet = ["N:A", "N:B", "N:PA", "N:PB", "O:d1", "O:d2", "O:d3", "O:d4", "O:d5", "O:d6", "O:d7", "O:d8", "C", "C", "C", "C", "F:A", "F:B"]
     h = [rng.choice(["N:A", "N:B", "N:PA"])]
     for _ in range(rng.randint(2, 11)):
         h.append(rng.choice(alphabet))
